@@ -4,7 +4,7 @@ E2 on every answer: same nodes/edges, non-negative (integral) values, conservati
     error / objective == recomputed, optimality against an exhaustive minimum over integer flows (tiny instances),
     epsilon variant within (1+eps)."""
 from fractions import Fraction as F
-import copy
+import copy, traceback
 import networkx as nx
 import common, gen2, lpdump, e1misc, props
 
@@ -72,15 +72,16 @@ def run_mef(kw):
         ids = e1misc.mef_ids(m)
         cap = {"impl": lpdump.dump_impl(s, e1misc.colkey_mef(s, ids)), "ids": ids}
         if caps:       # second model: what the code derived from the first optimum
-            first = m._solution
             sub = list(m.original_graph_copy.edges())
             cap["subset"] = sub
-            cap["opt"] = first["objective_value"] if first else None
+            # the first-stage optimum as the code itself read it from the solver (independent of the _solution cache)
+            cap["opt"] = e1misc.OBJLOG[-1] if e1misc.OBJLOG else None
             # be46679: the number of value slots = number of distinct values of the first solution itself (edge_sol)
             cap["nvals"] = len(set(m.edge_sol[(u, v)] for (u, v) in sub))
         caps.append(cap)
         lpdump.reset()
     lpdump.reset()
+    del e1misc.OBJLOG[:]
     m = fp.MinErrorFlow(solver_options=dict(SO), **kw)
     box["m"] = m
     e1misc.HOOK[0] = hook
@@ -210,13 +211,20 @@ def check_answer(ctx, kw, info, m, rep, snapshot):
     err = props.flow_cost(GI, x, f, charged, scale, types, 0, scaled=False)
     lam = kw.get("sparsity_lambda", 0) if acyclic else 0
     obj = props.flow_cost(GI, x, f, charged, scale, types, lam if lam > 0 else 0, scaled=True)
-    if abs(err - sol["error"]) > TOL:
-        ctx.report(f"reported error {sol['error']} differs from the recomputed sum of |f - x| over the charged edges {err}", rep); return False
-    if abs(obj - sol["objective_value"]) > TOL:
-        ctx.report(f"reported objective {sol['objective_value']} differs from the recomputed scaled error (+ sparsity term) {obj}", rep); return False
-    if m.get_objective_value() != sol["error"] or m.get_corrected_graph() is not H:
-        ctx.report("get_objective_value()/get_corrected_graph() disagree with get_solution()", rep); return False
-    ctx.count("E2_reported_error", "ok")
+    reported_ok = True
+    for fld in ("error", "objective_value"):
+        if isinstance(sol.get(fld), bool) or not isinstance(sol.get(fld), (int, float)):
+            ctx.report(f"get_solution()[{fld!r}] is {sol.get(fld)!r}, not a number", rep); reported_ok = False
+    epsnote = " (few_flow_values_epsilon > 0: the reported value must be the one recomputed from the returned graph)" if kw.get("few_flow_values_epsilon") else ""
+    if reported_ok and abs(err - sol["error"]) > TOL:
+        ctx.report(f"reported error {sol['error']} differs from the sum of |f - x| over the charged edges recomputed from the corrected graph, {err}" + epsnote, rep)
+        reported_ok = False
+    if reported_ok and abs(obj - sol["objective_value"]) > TOL:
+        ctx.report(f"reported objective {sol['objective_value']} differs from the scaled error (+ sparsity term) recomputed from the corrected graph, {obj}" + epsnote, rep)
+        reported_ok = False
+    if reported_ok and (m.get_objective_value() != sol["error"] or m.get_corrected_graph() is not H):
+        ctx.report("get_objective_value()/get_corrected_graph() disagree with get_solution()", rep); reported_ok = False
+    ctx.count("E2_reported_error", "ok" if reported_ok else "mismatch")
     # ---- optimality (exhaustive over integer flows)
     sc = F(info["scale"])
     fi = {e: F(v) / sc for e, v in f.items()}
@@ -258,7 +266,10 @@ def one_case(ctx, kw, info, rep, count=True):
         ctx.report("MinErrorFlow rejects a valid instance with ValueError: " + str(e), rep); return None
     except Exception as e:
         ctx.report("MinErrorFlow raised " + repr(e), rep); return None
-    e1_compare(ctx, m, caps, rep)
+    try:
+        e1_compare(ctx, m, caps, rep)
+    except Exception as e:
+        ctx.report("the E1 clause could not be evaluated on this instance: " + repr(e), dict(rep, traceback=traceback.format_exc()[-1500:]))
     # premises of the full optimality theorem, decided by the extracted verified check MefChecked.mef_domain_b
     # (Props/C16.v C16_optimal_solution_is_closest_flow_checked) on the instance the model object holds
     dom = ctx.model.run(["mefdom " + common.toks(e1misc.mef_tokens(m, caps[0]["ids"]))])[0].strip() if caps else "?"
@@ -289,7 +300,11 @@ def one_case(ctx, kw, info, rep, count=True):
         ctx.report("few_flow_values_epsilon: get_solution() returns the solution cached from the FIRST model (the hack in solve() fills _solution); "
                    "the second model's values are never returned" + (" (they differ here)" if differs else ""), rep,
                    key="mef_few_values_result_discarded")
-    check_answer(ctx, kw, info, m, rep, snapshot)
+    try:
+        check_answer(ctx, kw, info, m, rep, snapshot)
+    except Exception as e:
+        ctx.report("the E2 clauses could not be evaluated on the answer for this instance (malformed solution?): " + repr(e),
+                   dict(rep, traceback=traceback.format_exc()[-1500:]))
     return m
 
 
